@@ -22,6 +22,7 @@ type Case struct {
 	K        int    `json:"k"`        // 1 <= K < len(Old)
 	New      []int  `json:"new"`      // statement ids of the edited file
 	Cosmetic int    `json:"cosmetic"` // 0 none; 1 comment lines between statements; 2 extra blank lines / CRLF-free spaces
+	K2       int    `json:"k2"`       // > K: during the resume, statement index K2 of the new file fails too; a third run follows (0 = no second failure)
 	Edit     string `json:"edit"`     // how New was derived (for humans / evidence classes)
 	CLI      bool   `json:"cli"`      // run through the real binary on a SQLite file
 }
@@ -114,6 +115,38 @@ func checkAPI(c Case) error {
 	}
 	drv.FailIf = nil
 	drv.Log = nil
+	if c.K2 > c.K && c.K2 < len(c.New) && c.prefixUnchanged() {
+		// second partial failure during the resume, then a third, clean run: it must continue at K2
+		drv.ResetCalls()
+		drv.FailIf = func(_ string, call int) bool { return call == c.K2-c.K }
+		err = ex.ExecuteN(ctx, 0)
+		if !errors.As(err, &se) {
+			return fmt.Errorf("second attempt: want StmtExecError at statement %d, got %v", c.K2, err)
+		}
+		mid := revs.Snapshot()["1"]
+		if mid.Applied != c.K2 {
+			return fmt.Errorf("second attempt: revision %+v, want Applied=%d", mid, c.K2)
+		}
+		drv.FailIf = nil
+		drv.Log = nil
+		err = ex.ExecuteN(ctx, 0)
+		if err != nil {
+			return fmt.Errorf("no applied statement was edited (second partial failure at %d) but the third run is refused: %v", c.K2, err)
+		}
+		want := c.New[c.K2:]
+		if len(drv.Log) != len(want) {
+			return fmt.Errorf("third run executed %d statements, want the remaining tail %v: %+v", len(drv.Log), want, drv.Log)
+		}
+		for i, id := range want {
+			if drv.Log[i].Text != stmtText(id) {
+				return fmt.Errorf("third run statement %d = %q, want %q", i, drv.Log[i].Text, stmtText(id))
+			}
+		}
+		if fin := revs.Snapshot()["1"]; fin.Applied != len(c.New) || fin.Error != "" {
+			return fmt.Errorf("after the third run: revision %+v, want Applied=%d and no error", fin, len(c.New))
+		}
+		return nil
+	}
 	err = ex.ExecuteN(ctx, 0)
 	after := revs.Snapshot()["1"]
 	if c.prefixUnchanged() {
